@@ -192,14 +192,23 @@ def info(proj):
 
 
 # ------------------------------------------------------------------ command lines
-INT_WORDS = ["0", "5", "-3", "+5", "007", "42", "2147483648", "9223372036854775807", "-9223372036854775808",
-             "1x", "", "0x10", "1.5", "9223372036854775808", "١", " 1", "1_000", "1e3", "--1", "-", "T", "1h2m"]
-BOOL_WORDS = ["true", "false", "T", "F", "1", "0", "TRUE", "True", "t", "f", "FALSE", "False",
-              "yes", "no", "", "tRUE", "2", "on", "-v", "ok"]
-DUR_WORDS = ["1s", "1h2m", "1.5s", "0", "-1.5h", "1µs", "100ms", "1us", "+3m", ".5s", "1h2m3s4ms",
-             "1", "1x", "", "s", "1 s", "1d", "9999999h", "yes", "5", "1.5", "١s", "--"]
+# per type: spellings the conversion accepts / rejects (what really happens is decided by the Go standard
+# library in the harness, these lists only steer the distribution).  Among the accepted ints: leading
+# zeros (decimal for Atoi); among the rejected: the spellings other parsers accept (base prefixes, underscores)
+INT_OK = ["0", "5", "-3", "+5", "007", "42", "2147483648", "9223372036854775807", "-9223372036854775808",
+          "010", "0644", "-017", "+0123", "00", "0099"]
+INT_BAD = ["1x", "", "0x10", "1.5", "9223372036854775808", "١", " 1", "1_000", "1e3", "--1", "-", "T", "1h2m",
+           "0b11", "0o7", "0X1F", "0_7", "5 ", "٣", "1,000", "0x", "+-1"]
+BOOL_OK = ["true", "false", "T", "F", "1", "0", "TRUE", "True", "t", "f", "FALSE", "False"]
+BOOL_BAD = ["yes", "no", "", "tRUE", "2", "on", "-v", "ok", "y", "TrUe", " true", "01", "fALSE", "null"]
+DUR_OK = ["1s", "1h2m", "1.5s", "0", "-1.5h", "1µs", "100ms", "1us", "+3m", ".5s", "1h2m3s4ms", "1μs", "0s", "1.h"]
+DUR_BAD = ["1", "1x", "", "s", "1 s", "1d", "9999999h", "yes", "5", "1.5", "١s", "--", "1S", "1H", "h1", "1m ", "-", "1e3s", "."]
+INT_WORDS, BOOL_WORDS, DUR_WORDS = INT_OK + INT_BAD, BOOL_OK + BOOL_BAD, DUR_OK + DUR_BAD
 STR_WORDS = ["", "a", "hello world", "-v", "--", "-h", "-l", "-t", "1x", "true", "über", "a\"b", "x:y", "*", "$HOME",
-             "a\\b", "'q'", "١", "  ", "-", "--help", "=", "a=b"]
+             "a\\b", "'q'", "١", "  ", "-", "--help", "=", "a=b",
+             "", " ", "a b\tc", "line1\nline2", "\t", "%s", "100%", "%d%%%v", "${X}", "$(id)", "`id`", "a;b|c&d", "<x>", "(y)", "?",
+             "#c", "~", "!", "\\", "\\n", "C:\\dir\\f", "\"\"", "''", "-debug", "-t=5m", "--v", "-compile", "日本語", "é́", "\U0001F600",
+             "x" * 700, "a " * 120]
 UNKNOWN_WORDS = ["nosuch", "", "x:", ":build", "build:", "ns", "1", "true", "-v", "--", "al", "one:build", "über", "b u", ":", "a:b:c:d"]
 
 
@@ -220,9 +229,9 @@ def arg_word(rng, ty, inf, valid_bias=0.85):
         # a word that looks like a target or alias name
         names = [t["tname"] for t in all_targets(inf)] + [a for a, _ in inf["aliases"]]
         return rand_case(rng, rng.choice(names))
-    if ty != "string" and rng.random() < valid_bias:
-        k = {"int": 9, "bool": 12, "time.Duration": 11}[ty]      # the leading part of each pool is valid
-        return rng.choice(pool[:k])
+    if ty != "string":
+        ok, bad = {"int": (INT_OK, INT_BAD), "bool": (BOOL_OK, BOOL_BAD), "time.Duration": (DUR_OK, DUR_BAD)}[ty]
+        return rng.choice(ok if rng.random() < valid_bias else bad)
     return rng.choice(pool)
 
 
@@ -267,3 +276,48 @@ def gen_words(rng, inf):
 
 
 IGNORE_VALUES = [None, None, None, "1", "true", "0", "false", "yes", "T", "TRUE", "", "2"]
+
+
+# ------------------------------------------------------------------ how the program is started
+def gen_mode(rng):
+    """mode flags that must not change dispatch: verbose (flag and/or environment), debug, timeout"""
+    if rng.random() < 0.45:
+        return {"verbose": None, "debug": False, "timeout": None, "spell": 0}
+    return {"verbose": rng.choice([None, "flag", "flag", "env", "both"]), "debug": rng.random() < 0.3,
+            "timeout": rng.choice([None, None, "5m", "1h30m"]), "spell": rng.randrange(3)}
+
+
+def mode_flags(mode, front_end):
+    """(flags, env) for the mage front end (front_end=True) or for a compiled binary"""
+    fl, env = [], {}
+    if mode["verbose"] in ("flag", "both"):
+        fl.append(["-v", "-v=true", "--v"][mode["spell"]])
+    if mode["verbose"] in ("env", "both"):
+        env["MAGEFILE_VERBOSE"] = ["1", "true", "T"][mode["spell"]]
+    if mode["debug"]:
+        if front_end and mode["spell"] != 1:
+            fl.append("-debug")
+        else:
+            env["MAGEFILE_DEBUG"] = "1"
+    if mode["timeout"]:
+        fl += [["-t", mode["timeout"]], ["-t=" + mode["timeout"]], ["--t", mode["timeout"]]][mode["spell"]]
+    return fl, env
+
+
+def gen_argv0(rng, inf, compiled_name):
+    """file name and invocation path of the compiled binary: None (a neutral name by absolute path) or
+    {"name", "via": copy|hardlink|symlink|compiled|fake, "how": abs|dot|path}"""
+    if rng.random() < 0.5:
+        return None
+    if compiled_name and rng.random() < 0.35:
+        return {"name": compiled_name, "via": "compiled", "how": rng.choice(["abs", "dot", "path"])}
+    names = [t["tname"] for t in all_targets(inf)] + [a for a, _ in inf["aliases"]]
+    name = binary_name(rng, rng.choice(names))
+    return {"name": name, "via": rng.choice(["copy", "hardlink", "symlink", "symlink", "fake"]), "how": rng.choice(["abs", "dot", "path"])}
+
+
+def binary_name(rng, target_name):
+    name = rand_case(rng, target_name)
+    if rng.random() < 0.25:
+        name += rng.choice([".exe", ".EXE"])
+    return name
